@@ -127,6 +127,8 @@ def finish(prop, tier, seed, tasks, results, wall, known, extra=None):
             script = "scenario.py"  # native scenario search with property oracles, seeded by the counter-model
         elif script is None and prop in COMPONENT_PROPS:
             script = "components.py"
+        elif script is None and prop == "C17":
+            script = "schedules.py"  # systematic schedule exploration (bounded: <= 2 pre-emptions) against linearizability
         payload = None
         if name.startswith("regression-of-fixed-finding/"):
             # the witness of the fixed finding is the failing input, and it has just been replayed on this tree
@@ -137,11 +139,12 @@ def finish(prop, tier, seed, tasks, results, wall, known, extra=None):
                 payload = {"obligation": name, "model": o.get("model"), "detail": o.get("detail"), "property": prop,
                            "budget_s": 20, "seed": seed}
                 rep = replay_native(script, payload)
-                if not (rep or {}).get("reproduced") and script == "model_replay.py" and prop in COMPONENT_PROPS:
+                fallback = "components.py" if prop in COMPONENT_PROPS else ("schedules.py" if prop == "C17" else None)
+                if not (rep or {}).get("reproduced") and fallback and script != fallback:
                     # the counter-model did not concretise to a failing input: look for one with the property oracles
-                    rep2 = replay_native("components.py", payload)
+                    rep2 = replay_native(fallback, payload, timeout=300)
                     if rep2.get("reproduced"):
-                        script, rep = "components.py", rep2
+                        script, rep = fallback, rep2
             except Exception as e:  # pragma: no cover
                 rep = {"reproduced": None, "error": str(e)}
         data = {"property": prop, "obligation": name, "task": o.get("task"), "path": o.get("path"),
@@ -159,7 +162,8 @@ def finish(prop, tier, seed, tasks, results, wall, known, extra=None):
     stuck = bool(crashes or undecided or unsupported or errors)
     # thorough tier: the same search also runs next to a decided proof (defence against an unsound stdlib model in the engine),
     # except for properties with an open known finding, which the oracles would rediscover
-    search_script = "scenario.py" if prop in SCENARIO_PROPS else ("components.py" if prop in COMPONENT_PROPS else None)
+    search_script = "scenario.py" if prop in SCENARIO_PROPS else ("components.py" if prop in COMPONENT_PROPS else (
+        "schedules.py" if prop == "C17" else None))
     if not violations and search_script and (stuck or (tier == "thorough" and prop not in open_props)):
         budget = 60 if tier == "thorough" else 25
         try:
